@@ -41,6 +41,27 @@ def log(*a):
 # harness
 # --------------------------------------------------------------------------
 _built = {}
+REPO = os.environ.get("VERIF_REPO", "/repo")
+
+
+def _harness_dir():
+    """The harness crate has a path dependency on /repo. With VERIF_REPO set to
+    another checkout (scratch worktrees used when testing the checks against
+    seeded changes) a shadow crate directory with its own target dir is used,
+    so that registered checks always build /repo's working tree."""
+    if os.path.realpath(REPO) == "/repo":
+        return HARNESS
+    h = hashlib.sha1(os.path.realpath(REPO).encode()).hexdigest()[:10]
+    d = WORK / ("harness-" + h)
+    (d / ".cargo").mkdir(parents=True, exist_ok=True)
+    toml = open(HARNESS / "Cargo.toml").read().replace('path = "/repo"', 'path = "%s"' % os.path.realpath(REPO))
+    if not (d / "Cargo.toml").exists() or open(d / "Cargo.toml").read() != toml:
+        open(d / "Cargo.toml", "w").write(toml)
+    shutil.copy(HARNESS / "Cargo.lock", d / "Cargo.lock")
+    shutil.copy(HARNESS / ".cargo" / "config.toml", d / ".cargo" / "config.toml")
+    if not (d / "src").exists():
+        os.symlink(HARNESS / "src", d / "src")
+    return d
 
 
 def build_harness(profile="verif"):
@@ -50,14 +71,15 @@ def build_harness(profile="verif"):
         return _built[profile]
     t0 = time.time()
     env = dict(os.environ, CARGO_NET_OFFLINE="true")
+    hd = _harness_dir()
     p = subprocess.run(
         ["cargo", "build", "--offline", "--profile", profile, "--bin", "exec"],
-        cwd=HARNESS, env=env, stdout=subprocess.PIPE, stderr=subprocess.STDOUT, text=True)
+        cwd=hd, env=env, stdout=subprocess.PIPE, stderr=subprocess.STDOUT, text=True)
     if p.returncode != 0:
         log(p.stdout[-6000:])
         raise ToolError("harness build failed (profile %s)" % profile)
-    exe = HARNESS / "target" / profile / "exec"
-    log("[build] profile=%s %.1fs" % (profile, time.time() - t0))
+    exe = hd / "target" / profile / "exec"
+    log("[build] profile=%s repo=%s %.1fs" % (profile, REPO, time.time() - t0))
     _built[profile] = exe
     return exe
 
@@ -169,6 +191,7 @@ def tlc_run(module, cfg, workers=4, env=None, timeout=1800, xmx="4g", extra=(), 
     props = []
     if dfs:
         props.append("-Dtlc2.tool.queue.IStateQueue=StateDeque")
+    props.append("-Djava.io.tmpdir=%s" % meta)
     cmd = _java(props, xmx=xmx, xss="1g") + [
         "-workers", str(workers), "-metadir", str(meta), "-cleanup", "-noGenerateSpecTE",
         "-config", str(cfg)] + (["-coverage", "1"] if coverage else []) + list(extra) + [str(module) + ".tla"]
